@@ -58,7 +58,7 @@ def run(rep, kf, tier, seed):
     import contracts.registration as creg
     _eb.discharge(rep, kf, [creg.enum_build_contract(), creg.literal_enum_build_contract()], "C13", tier, seed)
     import contracts.enum_convert as cec
-    _eb.discharge(rep, kf, cec.all_contracts(), "C13", tier, seed)
+    _eb.discharge(rep, kf, cec.all_contracts() + cec.const_contracts(), "C13", tier, seed)
     from props.common import engine_b_crosscheck
     engine_b_crosscheck(rep, tier, convert_value=True)
     return {"level": "proof"}
